@@ -303,6 +303,26 @@ def c11_wait_handle(ctx):
     ws = w.calls_to(lambda f: M.callee_str(f) == "win32::WaitForSingleObject")
     ok = len(ws) == 1 and Tw.operand(ws[0][1]["args"][1]) == ("param", 2, w.local_name(2))
     ctx.ob("R11.6", "wait_handle->WaitForSingleObject(timeout)", ok, w.loc(0), "the timeout reaches WaitForSingleObject unchanged")
+    # "still running" is never reported before d has elapsed: the system call takes whole milliseconds, so the conversion must round up
+    cls = [f for p_, f in prog.fns.items() if p_.startswith("win32::WaitForSingleObject::{closure")]
+    conv = None
+    for f in cls:
+        calls = [M.callee_str(t["f"]) for _, t in f.calls()]
+        if any(c.endswith("Duration::as_millis") or c.endswith("Duration::as_nanos") or c.endswith("Duration::as_micros") for c in calls):
+            conv = f
+    okr = False
+    detail = "no millisecond conversion found"
+    if conv is not None:
+        Tc = M.Terms(conv)
+        calls = [M.callee_str(t["f"]) for _, t in conv.calls()]
+        bins = [Tc.rvalue(s_["r"]) for b_ in conv.live_blocks() for s_ in conv.blocks[b_]["stmts"] if s_["k"] == "assign" and s_["r"]["k"] == "bin"]
+        ceil_ns = any(b[0] == "bin" and b[1] == "Div" and const_of(b[3]) == 1000000 and M.contains(b[2], lambda u: u[0] == "bin" and u[1] in ("Add", "AddWithOverflow") and const_of(u[3]) == 999999
+                      and M.contains(u[2], lambda w: w[0] == "call" and w[1].endswith("Duration::as_nanos"))) for b in bins)
+        plain_ms = any(c.endswith("Duration::as_millis") for c in calls)
+        okr = ceil_ns and not plain_ms
+        detail = "ceil(ns / 1e6): %s; plain as_millis(): %s" % (ceil_ns, plain_ms)
+    ctx.ob("R11.6", "timeout-ms-rounded-up", okr, conv.loc(0) if conv is not None else "", "windows: the Duration -> milliseconds conversion for WaitForSingleObject must round up "
+           "((ns + 999_999) / 1_000_000): as_millis() truncates, so wait_timeout reports 'still running' up to 1 ms early and a sub-millisecond timeout does not wait at all (%s)" % detail)
 
 
 def c16_shell(ctx):
@@ -361,9 +381,21 @@ def c06_env_block(ctx):
     chain = all(dominated_by_blocks(fb, inl[i + 1][0], [inl[i][0]], start=min(loop)) for i in range(len(inl) - 1))
     ctx.ob("R06.9", "entry=name,'=',value,NUL", seq == [("extend", "0"), ("push", 0x3D), ("extend", "1"), ("push", 0)] and chain, fb.loc(inl[0][0] if inl else 0),
            "each iteration appends, in this order and each exactly once: the name's UTF-16 units, '=', the value's units, one NUL (found %s)" % seq)
-    out = [m for m in muts if not m[2]]
-    okt = [m[1] for m in out] == [("push", 0)] and all(dominated_by_blocks(fb, r, [out[0][0]]) for r in fb.return_blocks()) and out[0][0] in fb.reachable(min(loop))
-    ctx.ob("R06.9", "block-terminator", okt, fb.loc(out[0][0] if out else 0), "after the last entry exactly one more NUL terminates the block on every path (operations on the block outside the loop: %s)" % [m[1] for m in out])
+    out = [m for m in muts if not m[2] and m[1][0] != "other"]
+    others = [m[1] for m in muts if not m[2] and m[1][0] == "other" and not m[1][1].endswith("::is_empty") and not m[1][1].endswith("::len")]
+    after = [m for m in out if m[0] in fb.reachable(min(loop))]
+    final = [m for m in after if m[1] == ("push", 0) and all(dominated_by_blocks(fb, r, [m[0]]) for r in fb.return_blocks())]
+    okt = len(final) >= 1 and all(m[1] == ("push", 0) for m in after) and not others
+    ctx.ob("R06.9", "block-terminator", okt, fb.loc(after[0][0] if after else 0), "after the last entry a NUL terminates the block on every path; nothing else is appended outside the loop (operations: %s, %s)" % ([m[1] for m in after], others))
+    # CreateProcessW wants the block to end in *two* NULs: one ends the last variable, one ends the block.  With no variable at all the
+    # entry loop contributes nothing, so the empty environment needs its second NUL explicitly
+    Tb = T
+    empt = bool_edges(fb, Tb, lambda c: c[0] == "call" and (c[1].endswith("Vec::<T, A>::is_empty") or c[1].endswith("<impl [T]>::is_empty")), True)
+    empt += zero_test_edges(fb, Tb, lambda t_: M.contains(t_, lambda u: u[0] == "call" and (u[1].endswith("Vec::<T, A>::len") or u[1].endswith("<impl [T]>::len"))))[0]
+    extra = [m for m in after if m[1] == ("push", 0) and m not in final[-1:] and empt and dominated_by_edges(fb, m[0], empt)]
+    ctx.ob("R06.9", "empty-environment=two-NULs", bool(extra) and bool(final), fb.loc(after[0][0] if after else 0),
+           "for an empty environment (env_clear(), Some(vec![])) the block must still be two NULs: a second push(0) under an is_empty / len == 0 test "
+           "(found %d such push) — a one-NUL block makes CreateProcessW read past the buffer or fail with ERROR_INVALID_PARAMETER" % len(extra))
     rets = [s_["r"] for bb_ in fb.live_blocks() for s_ in fb.blocks[bb_]["stmts"] if s_["k"] == "assign" and s_["p"]["l"] == 0 and not s_["p"]["proj"]]
     okr = len(rets) == 1 and rets[0]["k"] == "use" and rets[0]["op"]["k"] in ("move", "copy") and rets[0]["op"]["p"]["l"] == blk[0] and not rets[0]["op"]["p"]["proj"]
     ctx.ob("R06.9", "returns-the-block", okr, fb.loc(0), "the assembled vector is what is returned")
@@ -375,6 +407,47 @@ def c06_env_block(ctx):
             calls = [M.callee_str(t["f"]) for _, t in cl[0].calls()]
             okf = any(n.endswith("to_ascii_uppercase") for n in calls)
         ctx.ob("R06.9", "key-folding=ascii-uppercase", okf, up.loc(0), "names are compared after ASCII upper-casing")
+    # the environment is checked for NUL before the block is built (a NUL would end a variable, or the block, early and let the rest
+    # of the value define further variables): the Windows sibling of CVec::new's check (R06.2)
+    oss = [f for p_, f in prog.fns.items() if p_.endswith("os_start")]
+    if len(oss) == 1:
+        osf = oss[0]
+        To = M.Terms(osf)
+        cp = [bb for bb, t in osf.calls() if M.callee_str(t["f"]) == "win32::CreateProcess"]
+        envf = lambda u: u[0] == "field" and u[2] == "env" and M.contains(u, lambda w: w[0] == "param")
+        covered = set()
+        gate = []
+        for bb, t in osf.calls():
+            if M.callee_str(t["f"]) != "std::iter::Iterator::any":
+                continue
+            a_ = [To.operand(x) for x in t["args"]]
+            clo = a_[1][1][1] if a_[1][0] == "agg" and a_[1][1][0] == "closure" else None
+            if clo is None or clo not in prog.fns or not M.contains(a_[0], envf):
+                continue
+            import c20
+            lits, other = c20.eq_literals(prog.fns[clo])
+            if lits != {0} or other:
+                continue
+            comps = set()
+            M.contains(a_[0], lambda u: comps.add(u[2]) or False if (u[0] == "field" and u[2] in ("0", "1") and M.contains(u, envf) and M.contains(a_[0], lambda w: w[0] == "call" and w[1] == ENC)) else False)
+            t_e = bool_edges(osf, To, lambda c, bb=bb: c[0] == "call" and len(c) > 3 and c[3] == bb, True)
+            errs = all([v for (b2, si2, v, r2) in result_variants(osf, M.Explore(osf, start=e_[1]))] and
+                       all(v in ("Err", "from_residual") for (b2, si2, v, r2) in result_variants(osf, M.Explore(osf, start=e_[1]))) and
+                       not (osf.reachable(e_[1]) & set(cp)) for e_ in t_e) and bool(t_e)
+            if errs:
+                covered |= comps
+                gate.append(bb)
+        okn = covered == {"0", "1"} and bool(cp)
+        if okn:
+            loops_ = M.sccs(osf)
+            lp = [l for l in loops_ if any(g in l for g in gate)]
+            none_e = variant_edges(osf, To, lambda t_: M.contains(t_, envf), 0, [0, 1], "std::option::Option<")
+            okn = bool(lp) and not (set(cp) & osf.reachable(0, removed_blocks=[min(lp[0])], removed_edges=set(none_e)))
+        ctx.ob("R06.9", "env-NUL-rejected-before-CreateProcess", okn, osf.loc(cp[0] if cp else 0),
+               "windows: every name and value of the configured environment must be scanned for NUL (any(c == 0) over encode_wide) with an Err return, in a loop that "
+               "CreateProcess cannot be reached around (components scanned: %s)" % sorted(covered))
+    else:
+        ctx.missing("R06.9", "windows os_start")
     # who calls it: only with the configured environment
     cs = callers_of(prog, fb.path)
     ctx.floor("R06.9", "callers of format_env_block", len(cs), 1)
